@@ -363,6 +363,9 @@ func (g *PG) Expr(sc *scope, ty Ty, depth int) Val {
 		case 2:
 			g.stat("function")
 			name := rapid.SampledFrom([]string{"+", "list", "max", "no-such-function", "x"}).Draw(g.t, "fname")
+			if name == "x" {
+				name = g.Prefix + name
+			}
 			return Call("funcall", L(S("function"), S(name)), g.Expr(sc, TyInt, depth-1), g.Expr(sc, TyInt, depth-1))
 		default:
 			g.stat("type?")
@@ -1098,6 +1101,12 @@ func (g *PG) higherOrder(sc *scope, ty Ty, depth int) Val {
 			// name (flet / labels / a let-bound lambda) must not be picked up
 			g.stat("quoted-symbol-designator")
 			name := rapid.SampledFrom([]string{"+", "max", "f", "g", "h", "zz-nowhere"}).Draw(g.t, "dname")
+			if name == "f" || name == "g" || name == "h" {
+				// the program's own global functions carry its prefix: a second
+				// program loaded into the same runtime must not pick up the first
+				// one's definitions through a package lookup
+				name = g.Prefix + name
+			}
 			local := L(S(name), L(S("a"), S("b")), L(S(rapid.SampledFrom([]string{"*", "-", "list"}).Draw(g.t, "lop")), S("a"), S("b")))
 			lst := g.Expr(sc, TyList, depth-2)
 			var use Val
